@@ -271,6 +271,9 @@ func createBufferManager(listSizePercent []*SizePercentPair, path string, mem []
 	freeBufferLists := make([]*bufferList, 0, len(listSizePercent))
 	sumPercent := uint32(0)
 	for _, pair := range listSizePercent {
+		if pair.Percent > 100 || pair.Size > ^uint32(0)-bufferHeaderSize {
+			return nil, fmt.Errorf("invalid SizePercentPair, size:%d percent:%d", pair.Size, pair.Percent)
+		}
 		sumPercent += pair.Percent
 		if sumPercent > 100 {
 			return nil, errors.New("the sum of all SizePercentPair's percent must be equals 100")
